@@ -115,3 +115,14 @@ def register(claim):
           NOTE_COMMON + " E9 base mode (hooks do not disconnect/reset from inside the callback; no other task's disconnect is in flight at dispatch); "
           "bytes already buffered by asyncio's transport and value-level behaviour after the disconnect are not decided.",
           "DESIGN.md#c11")
+
+    claim("C12", "E9 reachability for TestRequest/Heartbeat classes, def-use of the echoed TestReqID, suspension-window and who-writes rules for the outstanding id, "
+          "linear-form folding of the timer thresholds (coefficient inequalities, no solver)",
+          "Static: every inbound TestRequest at/above the expected number on an established session reaches a Heartbeat send echoing the request's TestReqID; "
+          "TestRequests are built only in send_test_req behind a 'none outstanding' guard with no await before the assignment, send_msg refuses foreign ones, "
+          "the id is cleared only on a matching Heartbeat or in disconnect; a wrong TestReqID ends in Logout + disconnect; the three thresholds fold to "
+          "P-1 / 2P / 2P and satisfy: probe within one interval, cut-offs strictly later and >= one interval, dead-peer cut within 3P; accepted messages "
+          "refresh the last-message time.",
+          NOTE_COMMON + " The timing half of the property (never disconnects a responsive peer / always disconnects a dead one within ~3 intervals for every "
+          "arrival pattern, interval and tick phase) is a timed-trace behaviour depending on wall-clock reads and sleep granularity: NOT decided by this check.",
+          "DESIGN.md#c12")
